@@ -282,4 +282,86 @@ example : isKeyword ['a'] = true ∧ isKeyword ['_', 'x'] = true ∧ isKeyword [
       [(['a'], 1), (['b'], 4)] := by
   decide
 
+/-! ## keyword names that bind to `**kwargs` are data
+
+The name handed to `**kwargs` is the name that was written - under EVERY convention, for every
+definition: the convention decides which keywords are parameters (`keywordName`), it never touches
+the others. -/
+
+/-- every pair handed to `**kwargs` is a pair that was written (name and value), for every convention -/
+theorem starstar_names_verbatim {α : Type} (c : Option Conv) (decl : List (Name × Option Name))
+    (kw : List (Name × α)) : ∀ p ∈ (splitKeywords c decl kw).2, p ∈ kw := by
+  intro p hp
+  have hid : (kw.map fun kv => (callSiteKeyword c kv.1, kv.2)) = kw := by
+    simp [callSiteKeyword]
+  simp only [splitKeywords, hid] at hp
+  exact (List.mem_filter.mp hp).1
+
+/-- ... no written pair is lost or renamed: it is bound to the parameter of that name, or handed on as it is -/
+theorem starstar_keywords_partition {α : Type} (c : Option Conv) (decl : List (Name × Option Name))
+    (kw : List (Name × α)) : ∀ p ∈ kw, p ∈ (splitKeywords c decl kw).1 ∨ p ∈ (splitKeywords c decl kw).2 := by
+  intro p hp
+  have hid : (kw.map fun kv => (callSiteKeyword c kv.1, kv.2)) = kw := by
+    simp [callSiteKeyword]
+  simp only [splitKeywords, hid, List.mem_filter]
+  cases (decl.map fun d => keywordName c d.2 d.1).contains p.1 <;> simp [hp]
+
+/-- a definition without named parameters (`let`, the wrappers `def` makes) receives ALL keywords as
+    written, in the order written, whatever the convention of the context -/
+theorem starstar_all_verbatim {α : Type} (c : Option Conv) (kw : List (Name × α)) :
+    splitKeywords c [] kw = ([], kw) := by
+  simp [splitKeywords, callSiteKeyword]
+
+/-- the convention changes WHICH keywords are parameters, never the name of a keyword that is none:
+    `my_var` next to a parameter declared `my_var` is the parameter under PythonConvention and data
+    under CamelCaseConvention - where the parameter is `myVar` -, and arrives as `my_var` in both -/
+example : splitKeywords (some .camel) [(['m', 'y', '_', 'v', 'a', 'r'], none)]
+      [(['m', 'y', '_', 'v', 'a', 'r'], 1), (['m', 'y', 'V', 'a', 'r'], 2), (['a', '_'], 3)] =
+      ([(['m', 'y', 'V', 'a', 'r'], 2)], [(['m', 'y', '_', 'v', 'a', 'r'], 1), (['a', '_'], 3)]) ∧
+    splitKeywords (some .python) [(['m', 'y', '_', 'v', 'a', 'r'], none)]
+      [(['m', 'y', '_', 'v', 'a', 'r'], 1), (['m', 'y', 'V', 'a', 'r'], 2), (['a', '_'], 3)] =
+      ([(['m', 'y', '_', 'v', 'a', 'r'], 1)], [(['m', 'y', 'V', 'a', 'r'], 2), (['a', '_'], 3)]) := by decide
+
+/-- the same at the level of `get_delegate` (the model the spelling theorems are about): when nothing is
+    passed twice, the payload's keyword dictionary is the one of the named keyword-only parameters
+    (a function of the values they receive) plus EVERY keyword no named parameter takes, under the
+    name written, with the argument written -/
+theorem starstar_delegate_verbatim (L : Lattice) (ps : List Param) (hwf : wfDef ps = true)
+    (args : List Arg) (kw : KwArgs) (hnc : noClash ps args kw = true) (b : Bound)
+    (h : getDelegate L ps args kw = some b) :
+    ∃ c : Core, bindLoop L (fun p => effective ps p args kw) (core0 ps) ps = some c ∧
+      b.kw = (extraKw ps kw).foldl (fun acc kv => aset kv.1 (.arg kv.2) acc) c.kw := by
+  rw [getDelegate_eq_of_received L ps hwf args kw hnc] at h
+  cases hb : bindLoop L (fun p => effective ps p args kw) (core0 ps) ps with
+  | none => rw [hb] at h; cases h
+  | some c =>
+      refine ⟨c, rfl, ?_⟩
+      rw [hb] at h
+      simp only [Option.bind_some, finish, Core.withRest] at h
+      split at h
+      · cases h
+      · cases hE : (extraKw ps kw).isEmpty with
+        | true =>
+            simp only [hE, if_true] at h
+            cases h
+            have : extraKw ps kw = [] := by simpa using hE
+            simp [this]
+        | false =>
+            simp only [hE, Bool.false_eq_true, if_false] at h
+            cases hss : starStarParam ps with
+            | none => rw [hss] at h; cases h
+            | some sp =>
+                rw [hss] at h
+                cases hall : ((extraKw ps kw).all fun kv => check L sp.ty kv.2) with
+                | true =>
+                    simp only [hall, if_true] at h
+                    cases h; rfl
+                | false =>
+                    simp only [hall, Bool.false_eq_true, if_false] at h
+                    cases h
+
+/-- ... and a definition whose parameters are all hidden / `*` / `**` takes none of them away -/
+theorem extraKw_pure (ps : List Param) (kw : KwArgs) (h : argNames ps = []) : extraKw ps kw = kw := by
+  simp [extraKw, h]
+
 end Yaql.Props.C12
